@@ -134,7 +134,7 @@ PROPS["C03"] = {
         "NOT proved: schema → validator translation outside that fragment (gen/ir/validation.go), needValidation, additionalProperties handling, sum types, formats, regex matching, numbers other than integers in the composed model",
     ],
     "assumptions": ["OpenAPI 3.0 reading of `integer`: a number without fraction or exponent part, within the range of its format (int32; int64 and no format: 64 bits)", "multipleOf ≠ 0 (the generator refuses 0)"],
-    "level_text": "partial: server_accepts_iff_valid — on the model of the generated decode-then-Validate path for the fragment objects / arrays / integers with bounds and multipleOf / strings with lengths / booleans / required / nullable, the verdict is validity against the schema, for schemas and documents of any size — and the leaf validators and the required-mask arithmetic are Lean theorems for every value (int_validate_iff on all of int64, float_validate_iff on every finite double as an exact rational, length_iff, props_iff, unique_iff, required_mask_iff); 'accept iff valid' for whole schemas is decided on every run by posting schema-directed valid instances, single-keyword boundary mutants and random JSON to regenerated servers and comparing (status, handler-invoked) with an independent reference validator — a correspondence, not a theorem",
+    "level_text": "partial: server_accepts_iff_valid — on the model of the generated decode-then-Validate path for the fragment objects / arrays / integers with bounds and multipleOf / strings with lengths / booleans / required / nullable, the verdict is validity against the schema, for schemas and documents of any size — and the leaf validators and the required-mask arithmetic are Lean theorems for every value (int_validate_iff on all of int64, float_validate_iff on every finite double as an exact rational, length_iff, props_iff, unique_iff, required_mask_iff); 'accept iff valid' for whole schemas is decided on every run by posting schema-directed valid instances, single-keyword boundary mutants and random JSON to regenerated servers and comparing (status, handler-invoked) with an independent reference validator — a correspondence, not a theorem; allOf_bounds_iff / allOf_counts_iff: the numeric-bound and count blocks of the allOf merge (gen.mergeSchemes) accept exactly what both members accept, tied through verif hooks on exhaustive grids incl. the neighbours of 2^53",
     "level_note": "trusted: Lean kernel, statements, leaf models + their differential tie, the harness' reference validator and schema/instance generators, gencheck pipeline.",
     "technique": "Lean 4 proofs of the runtime validators on BitVec 64/Int and of the required bit mask; generated decode-and-validate path checked differentially against an independent reference validator on regenerated servers",
 }
@@ -315,5 +315,5 @@ for _p in ["C01", "C02", "C03", "C04", "C05", "C06", "C07", "C08", "C09", "C11",
     if _p not in PROPS:
         NOT_CLAIMED[_p] = "not claimed yet: machinery under construction (theorems exist in lean/Ogen, the tie to /repo is not finished)"
 
-HOOK_COMMITS = ["8a1dd2e74a0b79a9e824b1b1ebee79bbac4dec2d", "0932b764a1d9512d33b0edbdb0df4d17b735f038", "ef3ea3473b26c332debe40e97892594d565639bc", "aee233eac6b9663d90022f009f68c7808e867606", "7e96f1649686c29e7dfd0604b7e07018df5f9b9f", "cbf132b99aca4f7c72df174ea158d4d8914d594d"]
+HOOK_COMMITS = ["8a1dd2e74a0b79a9e824b1b1ebee79bbac4dec2d", "0932b764a1d9512d33b0edbdb0df4d17b735f038", "ef3ea3473b26c332debe40e97892594d565639bc", "aee233eac6b9663d90022f009f68c7808e867606", "7e96f1649686c29e7dfd0604b7e07018df5f9b9f", "cbf132b99aca4f7c72df174ea158d4d8914d594d", "8e171b49bc5a4ebab20cd88e19e274748bdc7677"]
 
